@@ -245,7 +245,8 @@ func journal(check, class string, c any) {
 	if err != nil {
 		return
 	}
-	_ = os.WriteFile(filepath.Join(envOut, fmt.Sprintf("journal-%d.json", envShard)), b, 0o644)
+	// (the group is part of the name: several groups of one property write to the same directory with the same shard numbers)
+	_ = os.WriteFile(filepath.Join(envOut, fmt.Sprintf("journal-%s-%d.json", envStr("VERIF_GROUP", "g"), envShard)), b, 0o644)
 }
 
 var progress atomic.Int64
